@@ -344,6 +344,7 @@ type Enc struct {
 	heapInits map[string]Term
 	extraDecls map[string]string
 	keepDefs   bool
+	rangeMaps  map[*ssa.Range]*types.Map
 	racRunes   []int64
 	vals      map[ssa.Value]Val
 	outState  map[*ssa.BasicBlock]*State
@@ -406,7 +407,7 @@ func newEnc(p *Program, fn *ssa.Function, fc *FuncC) *Enc {
 		edgeGuard: map[[2]int]Term{}, blockG: map[*ssa.BasicBlock]Term{}, oblCtr: map[string]int{},
 		loops: map[*ssa.BasicBlock]*loopInfo{}, backEdge: map[[2]int]bool{}, debugVals: map[string][]ssa.Value{},
 		params: map[string]CVal{}, mulSeen: map[string]bool{}, okCur: "true", curGuard: tTrue, checked: map[string]*ssa.BasicBlock{},
-		known: map[string]string{}, defs: map[string]string{}, expanded: map[string]string{}, scratchLocals: map[*ssa.Alloc]Term{}, specVals: map[string]CVal{}, boxDecls: map[string]string{}, clauseSeen: map[string]bool{}, defaultExterns: map[string]bool{}}
+		known: map[string]string{}, defs: map[string]string{}, expanded: map[string]string{}, scratchLocals: map[*ssa.Alloc]Term{}, specVals: map[string]CVal{}, boxDecls: map[string]string{}, clauseSeen: map[string]bool{}, defaultExterns: map[string]bool{}, rangeMaps: map[*ssa.Range]*types.Map{}}
 	return e
 }
 
